@@ -31,6 +31,18 @@ from zeep.xsd.utils import (
 __all__ = ["All", "Choice", "Group", "Sequence"]
 
 
+def _has_value(value):
+    """Return if the value counts as given: 0, False and "" are values but
+    None and empty collections are not.
+
+    """
+    if value is None:
+        return False
+    if isinstance(value, (list, dict)) and not value:
+        return False
+    return True
+
+
 class Indicator(Base):
     """Base class for the other indicators"""
 
@@ -464,7 +476,7 @@ class Choice(OrderIndicator):
                 subresult = choice.parse_kwargs(kwargs, name, temp_kwargs)
 
                 if subresult:
-                    if not any(subresult.values()):
+                    if not any(_has_value(value) for value in subresult.values()):
                         available_kwargs.intersection_update(temp_kwargs)
                         result.update(subresult)
                     elif not found:
